@@ -180,10 +180,9 @@ Record tarr := mkTa {
   ta_sd : sdist                           (* _split_distribution *)
 }.
 
-(* TreeArray.__init__ : note that use_tree_weights is NOT handed to the SplitDistribution,
-   which therefore keeps its default True *)
+(* TreeArray.__init__ : the three settings are handed on to the SplitDistribution *)
 Definition new_ta (r : option bool) (iel iag uw : bool) : tarr :=
-  mkTa r iel iag uw [] [] [] [] (mkSd iel iag true 0 0 false false [] [] []).
+  mkTa r iel iag uw [] [] [] [] (mkSd iel iag uw 0 0 false false [] [] []).
 
 Definition set_sd (t : tarr) (sd : sdist) : tarr :=
   mkTa (ta_rooting t) (ta_ign_el t) (ta_ign_ages t) (ta_use_w t)
@@ -306,6 +305,39 @@ Definition plus (a b : tarr) : option tarr * option terr :=
   end.
 
 (* ------------------------------------------------------------------------------------ *)
+(* Repaired forms of the two sites with a recorded finding (DESIGN 5.2).  The harness      *)
+(* determines by replaying the findings' reproducers which form the working tree has and   *)
+(* runs the correspondence against that form.                                              *)
+(* ------------------------------------------------------------------------------------ *)
+
+(* (a) add_tree treats an undefined rooting as unrooted before validate_rooting *)
+Definition norm_rooting (x : trec) : trec :=
+  mkTrec (tr_items x) (tr_leafset x) (tr_weight x)
+         (match tr_rooting x with None => Some false | r => r end) (tr_ages_err x).
+
+Definition add_tree_r (t : tarr) (x : trec) (index : option Z) : tarr * option terr :=
+  add_tree t (norm_rooting x) index.
+
+(* (b) extend returns at once on an empty argument and lets an empty receiver of undefined
+       rooting take over the argument's rooting before the asserts *)
+Definition is_none {A} (o : option A) : bool := match o with None => true | Some _ => false end.
+
+Definition extend_r (a b : tarr) : tarr * option terr :=
+  if is_nil (ta_splits b) then (a, None)
+  else extend (if is_nil (ta_splits a) && is_none (ta_rooting a) then set_rooting a (ta_rooting b) else a) b.
+
+Definition plus_r (a b : tarr) : option tarr * option terr :=
+  let t0 := new_ta (ta_rooting a) (ta_ign_el a) (ta_ign_ages a) (ta_use_w a) in
+  match extend_r t0 a with
+  | (_, Some e) => (None, Some e)
+  | (t1, None) =>
+    match extend_r t1 b with
+    | (_, Some e) => (None, Some e)
+    | (t2, None) => (Some t2, None)
+    end
+  end.
+
+(* ------------------------------------------------------------------------------------ *)
 (* Operation histories over several TreeArray objects (the harness's variables)          *)
 (* ------------------------------------------------------------------------------------ *)
 
@@ -355,6 +387,31 @@ Definition step (w : list tarr) (o : op) : list tarr * option terr :=
 
 Definition run (w : list tarr) (ops : list op) : list tarr :=
   fold_left (fun w o => fst (step w o)) ops w.
+
+(* the same with the form of the two sites chosen by (v_undef, v_ext): false = as modelled above *)
+Definition step_v (v_undef v_ext : bool) (w : list tarr) (o : op) : list tarr * option terr :=
+  match o with
+  | OAdd i x index =>
+    match nth_error w i with
+    | Some t => let '(t', e) := (if v_undef then add_tree_r else add_tree) t x index in (set_nth i t' w, e)
+    | None => (w, bad_slot)
+    end
+  | OExtend i j | OIAdd i j =>
+    match nth_error w i, nth_error w j with
+    | Some a, Some b => let '(t', e) := (if v_ext then extend_r else extend) a b in (set_nth i t' w, e)
+    | _, _ => (w, bad_slot)
+    end
+  | OPlus k i j =>
+    match nth_error w i, nth_error w j with
+    | Some a, Some b =>
+      match (if v_ext then plus_r else plus) a b with
+      | (Some t', e) => (set_nth k t' w, e)
+      | (None, e) => (w, e)
+      end
+    | _, _ => (w, bad_slot)
+    end
+  | OUpdate _ _ => step w o
+  end.
 
 (* Which trees an array is supposed to hold after a history ("pooling"): the bookkeeping the
    theorems use to say what a summary may depend on.  A failed operation adds nothing. *)
@@ -597,17 +654,17 @@ Definition lens4 (t : tarr) : list Z :=
 Definition op_target (o : op) : nat :=
   match o with OAdd i _ _ | OUpdate i _ | OExtend i _ | OIAdd i _ | OPlus i _ _ => i end.
 
-Fixpoint run_obs (w : list tarr) (ops : list op) : list stepobs * list tarr :=
+Fixpoint run_obs (vu ve : bool) (w : list tarr) (ops : list op) : list stepobs * list tarr :=
   match ops with
   | [] => ([], w)
   | o :: r =>
-    let '(w', e) := step w o in
+    let '(w', e) := step_v vu ve w o in
     let i := op_target o in
     let so := match nth_error w' i with
               | Some t => mkStep e i (lens4 t) (ta_rooting t)
               | None => mkStep e i [] None
               end in
-    let '(obs, wf) := run_obs w' r in (so :: obs, wf)
+    let '(obs, wf) := run_obs vu ve w' r in (so :: obs, wf)
   end.
 
 Definition stepobs_eqb (a b : stepobs) : bool :=
@@ -622,7 +679,7 @@ Record case := mkCase {
   k_final : list est
 }.
 
-Definition case_run (c : case) := run_obs (map new_cfg (k_slots c)) (k_ops c).
+Definition case_run (vu ve : bool) (c : case) := run_obs vu ve (map new_cfg (k_slots c)) (k_ops c).
 
 Fixpoint all2 {A B} (f : A -> B -> bool) (l : list A) (m : list B) : bool :=
   match l, m with
@@ -631,13 +688,15 @@ Fixpoint all2 {A B} (f : A -> B -> bool) (l : list A) (m : list B) : bool :=
   | _, _ => false
   end.
 
-Definition case_ok (c : case) : bool :=
-  let '(obs, wf) := case_run c in
+Definition case_ok_v (vu ve : bool) (c : case) : bool :=
+  let '(obs, wf) := case_run vu ve c in
   list_eqb stepobs_eqb obs (k_steps c) && all2 state_eqb wf (k_final c).
 
 (* diagnostics for replays: step observations and a light dump of the final states *)
-Definition case_show (c : case) :=
-  let '(obs, wf) := case_run c in
+Definition case_ok := case_ok_v false false.
+
+Definition case_show_v (vu ve : bool) (c : case) :=
+  let '(obs, wf) := case_run vu ve c in
   (obs, map (fun t => (ta_rooting t, lens4 t, sd_total (ta_sd t), sd_sumw (ta_sd t), ksort (sd_counts (ta_sd t)))) wf).
 
 (* a SumTrees case: the records of the trees in every input file (as the readers deliver them
@@ -653,9 +712,12 @@ Record stcase := mkStCase {
   sc_parallel : est         (* implementation, num_processes = s_workers *)
 }.
 
-Definition stcase_ok (c : stcase) : bool :=
-  match serial (sc_cfg c) (sc_files c), parallel_collate (sc_cfg c) (sc_sched c) (sc_files c) with
+Definition stcase_ok_v (vu : bool) (c : stcase) : bool :=
+  let files := if vu then map (map norm_rooting) (sc_files c) else sc_files c in
+  match serial (sc_cfg c) files, parallel_collate (sc_cfg c) (sc_sched c) files with
   | (ts, None), (tp, None) =>
     state_eqb ts (sc_serial c) && state_eqb tp (sc_parallel c)
   | _, _ => false
   end.
+
+Definition stcase_ok := stcase_ok_v false.
